@@ -1,5 +1,5 @@
 CHECK = {'rule': 'rapid-generated terminal scripts run through the real terminal service of a bootstrapped MockupApp (terminal, common, oc and pipeline '
-         'modules) on a child scope of the application scope (sharing the app context, with a fresh context, or with an isolated context): 0-2 '
+         'modules) on a child scope of the application scope (sharing the app context, with a fresh context, or with an isolated context) or on a caller-owned scope that is no child of the application scope: 0-2 '
          'leading probes, 1-3 top-level pip:try blocks with optional (possibly failing) probes between/after them; bodies of 1-4 commands (probe '
          'commands with generated duration: none / 1-5 yields / 20 us - 2.5 ms, nested pip:run tasks up to two levels - in the self sandbox, in a harness control sandbox that runs the body through the terminal, or in a sandbox that fails while it is set up (a harness sandbox whose Run returns an error without touching the scope, or container:<image>, where the real command line engine refuses the in-memory working directory before executing anything; such a task is a failing command of the enclosing context, its begin/end events are written by the harness sandbox / a recording engine wrapper) - and nested pip:try blocks), a '
          'failing command at a uniform position in 55 % of the bodies (a probe, a command of a nested task, or a handler of a nested try), every '
@@ -8,7 +8,8 @@ CHECK = {'rule': 'rapid-generated terminal scripts run through the real terminal
          'over the log and the final scope state, for every try block that was entered: no handler event precedes an event of the body subtree and '
          'no handler runs without the body; success handler only after an error-free body, fail handler only after a body with an error; a defined '
          'matching handler and a defined finally handler did run (skipped only when a failing command outside of that handler ran in the context '
-         'of the try or an enclosing one - sibling-failure exemption); Err() of the surrounding scope is non-nil iff a command of its own context '
+         'of the try or an enclosing one - sibling-failure exemption; a failing command of the matching handler that failed only after the finally handler had '
+         'begun, or after waiting 10 s for it, does not exempt the finally handler); Err() of the surrounding scope is non-nil iff a command of its own context '
          '(a handler or a top-level probe) failed; the application scope agrees (shared) or stays clean (own/isolated); RunLoop, Wait and Close of '
          'the surrounding scope return (watchdog 20 s, then the partial log is judged by the same clauses, otherwise inconclusive). TestEnum adds '
          'the grid 8 handler subsets x 14 body shapes (four with nested tasks in the control / set-up-failing sandboxes) x {no / each defined handler fails} x 3 context kinds. Non-trivial: an entered try block '
@@ -50,7 +51,7 @@ CHECK = {'rule': 'rapid-generated terminal scripts run through the real terminal
 
 TEXT = {'technique': 'property-based testing (rapid) of generated pip:try programs run through the real terminal service: probe commands with generated '
               'durations write a sequence-numbered event log, validity predicates over the log and the final scope state; plus an exhaustive grid '
-              'of handler subsets x body shapes x failing handler x context kind',
+              'of handler subsets x body shapes x failing handler x context kind (incl. a caller-owned scope outside the application scope); handler failures that wait for the finally handler to begin',
  'level_text': 'Exploration: thousands of generated scripts (failing command at any body position, nested tasks and nested try blocks, every handler '
                'subset, failing handlers, three kinds of surrounding context, GOMAXPROCS 1/2/4/8, generated probe durations) are judged by '
                'order/iff/containment predicates over one event log; interleavings of concurrently running handlers are sampled, not enumerated.',
